@@ -435,6 +435,7 @@ class MatEngine:
         a = ('arg', 1, g.names.get(1))
         b = ('arg', 2, g.names.get(2))
         rets = g.return_values()
+        saved_bb = getattr(self, '_cur_bb', None)       # the caller's program point (its asserted equalities) is restored afterwards
         try:
             if len(rets) == 1:
                 r = self.mat(g, rets[0], ix, {a: 'A', b: 'B'}, depth=1)
@@ -466,6 +467,8 @@ class MatEngine:
         except MatProblem as e:
             self._summaries[k] = e
             raise
+        finally:
+            self._cur_bb = saved_bb
         self._summaries[k] = r
         return r
 
